@@ -163,7 +163,7 @@ func popOpts(g *G) *neat.Options {
 	return o
 }
 
-var landscapes = []string{"distinct", "heavyTail", "dominant", "constant", "zero", "quantised", "nearTies", "plateaus"}
+var landscapes = []string{"distinct", "heavyTail", "dominant", "constant", "zero", "quantised", "nearTies", "plateaus", "mixedSign", "tinyScale"}
 
 func assignFitness(g *G, pop *genetics.Population, landscape string) {
 	for i, o := range pop.Organisms {
@@ -192,6 +192,16 @@ func assignFitness(g *G, pop *genetics.Population, landscape string) {
 			default:
 				o.Fitness = 0.5 + g.f64()*3
 			}
+		case "mixedSign":
+			// negative raw values beside positive ones (legal: the code clamps the ADJUSTED value); organism 0 is positive
+			if i == 0 || g.chance(0.6) {
+				o.Fitness = 0.01 + g.f64()*5
+			} else {
+				o.Fitness = -g.f64() * 5
+			}
+		case "tinyScale":
+			// a legal but small fitness scale: the quotas depend on ratios only
+			o.Fitness = (0.01 + g.f64()*10) * []float64{1e-7, 1e-9, 1e-12, 1e-30}[g.caseNo%4]
 		case "constant":
 			o.Fitness = 3.5
 		case "zero":
